@@ -154,7 +154,7 @@ func gen(r *sim.Rng, tier string) *sim.Case {
 		start = 1
 	}
 	c.Params["start"] = start
-	c.Params["dist"] = r.Pick(4, 2, 2, 2, 2, 2)
+	c.Params["dist"] = r.Pick(4, 2, 2, 2, 2, 2, 2)
 	dom := []int{16, 16, 16, 64, 200, 256}[r.N(6)]
 	if r.Pct(2) {
 		dom = 2000 // rare: a long list
@@ -281,6 +281,8 @@ func towerWords(dist int, seed uint64) func() uint64 {
 			}
 		case 4: // uniform bit length
 			bl = r.N(33)
+		case 6: // ramp the other way: each word one bit longer than the previous one
+			bl = n % 33
 		default: // ramp: each word one bit shorter than the previous one, then repeat
 			bl = 32 - (n % 33)
 		}
